@@ -9,6 +9,11 @@ encoding of Model/Wire.lean; `<opt>` is 0 for `x[..]`, 1 for `x?[..]`):
   iterb <hex>                                 same, byte-level iterator model; answer is hex items
   trunc <strval> <n> <endstrval>              `truncate(length=n, end=..)` (char level)
   truncb <hex> <n> <hexend>                   same, byte-level model; answer is hex
+  for <val>                                   `{% for ch in x %}..{% else %}..{% endfor %}` over a string, array or bytes:
+                                              array of [item, loop.index, loop.index0, loop.first, loop.last,
+                                              loop.length] per pass, or ["EMPTY"] when the else branch runs
+  forb <hex>                                  the string loop at byte level (iterator with its `remaining`
+                                              counter, ForLoop::new, Iterate); items as hex with the loop data
   pyspec <len> <start> <stop> <step>          Spec/PySlice.lean `select` on [0, 1, .., len-1]; operands are
                                               decimal integers or `None`; answer "ok i,j,.." | "ValueError"
                                               (lets the harness compare the Lean spec with python3 itself)
@@ -66,6 +71,20 @@ def parseOpt : String → Option Bool
   | "1" => some true
   | _ => none
 
+def rowValue (item : Value) (l : LoopData) : Value :=
+  .arr [item, .u64 l.index, .u64 l.index0, .bool l.first, .bool l.last, .u64 l.length]
+
+def forValue (items : List Value) : Res Value :=
+  (loopRows items.length).map fun rows =>
+    if items.isEmpty then .arr [.str false "EMPTY".toList]
+    else .arr ((items.zip rows).map fun (i, l) => rowValue i l)
+
+def showBit (b : Bool) : String := if b then "1" else "0"
+
+def showRowsB (rows : List (List Nat × LoopData)) : String :=
+  s!"L{rows.length}" ++ String.join (rows.map fun (b, l) =>
+    s!" h:{Wire.bytesHex b}/{l.index}/{l.index0}/{showBit l.first}/{showBit l.last}/{l.length}")
+
 def parseOptInt (t : String) : Option (Option Int) :=
   if t == "None" then some none else t.toInt?.map some
 
@@ -91,6 +110,16 @@ def handle (line : String) : String :=
     match Wire.parseValue rest with
     | some (.str _ s, []) => "ok " ++ Wire.showValue (.arr (iterChars s))
     | _ => "bad-args"
+  | "for" :: rest =>
+    match Wire.parseValue rest with
+    | some (.str _ s, []) => showRes Wire.showValue (forValue (iterChars s))
+    | some (.arr xs, []) => showRes Wire.showValue (forValue xs)
+    | some (.bytes bs, []) => showRes Wire.showValue (forValue (bs.map Value.u64))
+    | _ => "bad-args"
+  | ["forb", h] =>
+    match Wire.hexBytes ((h.drop 2).toString.toList) with
+    | some bs => showRes showRowsB (strFor bs)
+    | none => "bad-args"
   | ["iterb", h] =>
     match Wire.hexBytes ((h.drop 2).toString.toList) with
     | some bs => showRes showHexList (strIterAll bs (bs.length + 1) 0 [])
